@@ -19,7 +19,7 @@ from .. import lattice as L
 from .. import oracle as O
 
 LEVEL = "exploration"
-RETRY = dict(wait_fixed=1, stop_max_attempt_number=3)
+RETRY = dict(wait_exponential_multiplier=1, wait_exponential_max=1, stop_max_attempt_number=3)     # the keys of the library's own default, 1 ms waits
 PI, E_ = math.pi, math.e
 
 
